@@ -9,6 +9,7 @@
    loss(result) <= loss(prior) are re-checked per fit. *)
 From Coq Require Import List Reals.
 From ML Require Import Ops Vec NP VecR MatR LinAlg NPNum LSML C12Proof C20Proof C12Src.
+From ML Require Import PinsC12.
 From MLgen Require Import Src_lsml.
 Import ListNotations.
 Open Scope R_scope.
@@ -64,3 +65,7 @@ Proof.
 Qed.
 Print Assumptions C12_source.
 Definition C12_source_skeleton := lsml_skeleton_ok.
+
+(* text-level tie: the functions this property's hand-written model and harness were written from are unchanged
+   (digests regenerated from /repo on every run; Proofs/PinsC12.v) *)
+Definition C12_source_pins := pins_C12_ok.
